@@ -1758,14 +1758,24 @@ def _p_tree_leaves(it, args, kwargs, site):
             if v is None:
                 return
             if ch is None:
+                # a value that is not certainly one array may stand for a whole pytree: its leaves cannot be enumerated
+                if isinstance(v, T.Term) and not is_array_term(v):
+                    raise _OpaqueLeaves
                 out.append(v)
             else:
                 for c in ch[1]:
                     go(c)
 
-        go(x)
+        try:
+            go(x)
+        except _OpaqueLeaves:
+            return _MISSING
         return out
     return _MISSING
+
+
+class _OpaqueLeaves(Exception):
+    pass
 
 
 @prim("tree.tree_leaves_depth_one")
